@@ -305,14 +305,44 @@ theorem c09_earlyStopRequest_idempotent (r : EarlyStopRequest) (h : ProblemOk Cf
       = earlyStopRequestToProto Cfg.fixed r := by
   rw [earlyStopRequest_roundtrip Cfg.fixed r h, earlyStopRequestToProto_norm]
 
-theorem c09_earlyStopDecisions_roundtrip (d : EarlyStopDecisions) (h : EarlyStopDecisionsOk Cfg.fixed d) :
+/-- FULL STATEMENT for EarlyStopDecisions (no hypothesis about predictions) -/
+def EarlyStopDecisionsRoundTrip (cfg : Cfg) : Prop :=
+  ∀ d : EarlyStopDecisions, DeltaWF d.metadata →
+    (∀ e ∈ d.decisions, ∀ m, e.predicted = some m → MeasOk cfg m) →
+    earlyStopDecisionsFromProto cfg (earlyStopDecisionsToProto d) = earlyStopDecisionsNorm d
+
+/-- PROVED PART: decisions that all carry a predicted final measurement -/
+theorem c09_earlyStopDecisions_roundtrip_partial (d : EarlyStopDecisions) (h : EarlyStopDecisionsOk Cfg.fixed d) :
     earlyStopDecisionsFromProto Cfg.fixed (earlyStopDecisionsToProto d) = earlyStopDecisionsNorm d :=
   earlyStopDecisions_roundtrip Cfg.fixed d h
 
-theorem c09_earlyStopDecisions_idempotent (d : EarlyStopDecisions) (h : EarlyStopDecisionsOk Cfg.fixed d) :
+theorem c09_earlyStopDecisions_idempotent_partial (d : EarlyStopDecisions) (h : EarlyStopDecisionsOk Cfg.fixed d) :
     earlyStopDecisionsToProto (earlyStopDecisionsFromProto Cfg.fixed (earlyStopDecisionsToProto d))
       = earlyStopDecisionsToProto d := by
   rw [earlyStopDecisions_roundtrip Cfg.fixed d h, earlyStopDecisionsToProto_norm]
+
+def noPredictionWitness : EarlyStopDecisions := ⟨[⟨1, "r", false, none⟩], ⟨[], []⟩⟩
+
+/-- a decision without prediction is sent with an empty `Measurement()` and comes back with a
+prediction (and the second conversion adds an `elapsed_duration`) — under every variant
+(recorded finding) -/
+theorem c09_earlyStopDecisions_no_prediction_counterexample (cfg : Cfg) : ¬ EarlyStopDecisionsRoundTrip cfg := by
+  intro hrt
+  have hw : DeltaWF noPredictionWitness.metadata :=
+    { study := ⟨by decide, (by intro g hg; cases hg), (by intro g hg; cases hg)⟩
+      ids_nodup := by decide
+      trials := by intro t ht; cases ht }
+  have := hrt noPredictionWitness hw (by
+    intro e he m hm
+    simp [noPredictionWitness] at he
+    subst he
+    cases hm)
+  obtain ⟨a, b, c, d⟩ := cfg
+  cases a <;> cases b <;> cases c <;> cases d <;> (revert this; decide +kernel)
+
+theorem c09_earlyStopDecisions_no_prediction_idempotent_counterexample :
+    earlyStopDecisionsToProto (earlyStopDecisionsFromProto Cfg.fixed (earlyStopDecisionsToProto noPredictionWitness))
+      ≠ earlyStopDecisionsToProto noPredictionWitness := by decide +kernel
 
 /-! ## the normal forms are normal forms, and the hypotheses are satisfiable -/
 
